@@ -509,6 +509,14 @@ def snapshot_rules(ctx, pfx, requests=REQUESTS):
                        'EpochHash returned by %s' % (short(base), ' -> '.join(short(x) for x in prog.path_to(parent, n)[-3:]), r),
                        key='RF-SNAP|%s|again|%s' % (r, base))
         snap = fetches[0][1]
+        # the snapshot is read through the same (cached) view as the nodes: an epoch record fetched past the cache
+        # (`get_azks_from_storage(_, ignore_cache = true)`, which only the change poller may do, under the write lock)
+        # can be newer than the cached nodes the request then walks (seeded change C04-r2-a)
+        uncached = call_is(snap, 'Directory::get_azks_from_storage') and not is_const(arg(snap, 1), 0)
+        ctx.ob(oid + '.cached_view', 'RF-SNAP', not uncached, b.path, '%s:%s' % (b.file, fetches[0][0]['line']),
+               'the epoch record is read through the cache-consistent path' if not uncached else
+               'the request reads the epoch record past the cache (ignore_cache) but its nodes through the cache: on a lagging '
+               'cached reader the two disagree', key='RF-SNAP|%s|cached_view' % r)
         # the epoch record is read FIRST: a value-state read placed before it can miss a version that a publish commits
         # in between, while the (later) snapshot epoch already covers it (seeded change C03-r2-a)
         early = [(ev, c) for cal in ('StorageManager::get_user_data', 'StorageManager::get_user_state', 'StorageManager::get_user_state_versions',
